@@ -42,7 +42,7 @@ def collectSlot (a e : String) : Stmt :=
 
 def collectBody : Stmt := S.block [collectSlot MA ME, collectSlot BA BE]
 
-def collectLoop : Stmt := S.forEach V.cell (P.iter (P.attr (P.var V.newdoc) "cells")) collectBody
+def collectLoop : Stmt := S.forEach V.cell (P.var V.all_cells) collectBody
 
 /-- `if x.id in referenced_ids: d[x.id] = x` -/
 def defBody (x : Var Val) (d : Var Dict) : Stmt :=
@@ -79,12 +79,13 @@ def fixSlot (d : Var Dict) (a e : String) : Stmt :=
 
 def fixBody : Stmt := S.block [fixSlot V.ext_morphs MA ME, fixSlot V.ext_biophys BA BE]
 
-def fixLoop : Stmt := S.forEach V.cell (P.iter (P.attr (P.var V.newdoc) "cells")) fixBody
+def fixLoop : Stmt := S.forEach V.cell (P.var V.all_cells) fixBody
 
 /-- `fix_external_morphs_biophys_in_cell` -/
 def fix (files : Files) : Stmt :=
   S.block [
     chooseDoc,
+    S.assign V.all_cells (P.concatItems (P.attr (P.var V.newdoc) "cells") (P.attr (P.var V.newdoc) "cell2_ca_poolses")),
     S.assign V.referenced_ids P.emptyList,
     collectLoop,
     S.assign V.ext_morphs P.emptyDict,
@@ -267,9 +268,11 @@ structure Core where
   em : Dict
   eb : Dict
   incdoc : Val
+  allCells : List Val
 
 def coreOf (σ : Sig) : Core :=
-  ⟨σ.heap, σ.copies, σ.docCopy, σ.loc.newdoc, σ.loc.referenced_ids, σ.loc.ext_morphs, σ.loc.ext_biophys, σ.loc.incdoc⟩
+  ⟨σ.heap, σ.copies, σ.docCopy, σ.loc.newdoc, σ.loc.referenced_ids, σ.loc.ext_morphs, σ.loc.ext_biophys, σ.loc.incdoc,
+    σ.loc.all_cells⟩
 
 /-! ### collecting `referenced_ids` -/
 
@@ -288,8 +291,8 @@ theorem collectSlot_run (a e : String) (σ : Sig) :
 theorem collectLoop_run (σ : Sig) :
     ∃ σ', Hand.collectLoop σ = .normal σ' ∧
       coreOf σ' = ⟨σ.heap, σ.copies, σ.docCopy, σ.loc.newdoc, σ.loc.referenced_ids ++
-        referencedIds σ.heap (listItems σ.heap (getattrV σ.heap σ.loc.newdoc "cells")), σ.loc.ext_morphs, σ.loc.ext_biophys,
-        σ.loc.incdoc⟩ := by
+        referencedIds σ.heap σ.loc.all_cells, σ.loc.ext_morphs, σ.loc.ext_biophys,
+        σ.loc.incdoc, σ.loc.all_cells⟩ := by
   have h := forItems_sim_fold (fun σ s => coreOf σ = s) V.cell Hand.collectBody
     (fun s c => { s with refs := s.refs ++ (slotRefs s.heap c MA ME ++ slotRefs s.heap c BA BE) })
     (by
@@ -297,7 +300,7 @@ theorem collectLoop_run (σ : Sig) :
       subst hR
       simp only [Hand.collectBody, S.block, S.seq, collectSlot_run, S.skip]
       exact ⟨_, rfl, by simp [coreOf, V.referenced_ids, V.cell, List.append_assoc]⟩)
-    (listItems σ.heap (getattrV σ.heap σ.loc.newdoc "cells")) σ (coreOf σ) rfl
+    σ.loc.all_cells σ (coreOf σ) rfl
   obtain ⟨σ', h1, h2⟩ := h
   refine ⟨σ', h1, ?_⟩
   rw [h2]
@@ -338,7 +341,7 @@ theorem defLoopM_run (owner : Var Val) (lst : String) (σ : Sig) :
     ∃ σ', Hand.defLoop V.morph V.ext_morphs owner lst σ = .normal σ' ∧
       coreOf σ' = ⟨σ.heap, σ.copies, σ.docCopy, σ.loc.newdoc, σ.loc.referenced_ids,
         addDefs σ.heap σ.loc.referenced_ids σ.loc.ext_morphs (listItems σ.heap (getattrV σ.heap (owner.get σ.loc) lst)),
-        σ.loc.ext_biophys, σ.loc.incdoc⟩ := by
+        σ.loc.ext_biophys, σ.loc.incdoc, σ.loc.all_cells⟩ := by
   have h := forItems_sim_fold (fun σ s => coreOf σ = s) V.morph (Hand.defBody V.morph V.ext_morphs)
     (fun s e => { s with em := if getattrV s.heap e "id" ∈ s.refs then (getattrV s.heap e "id", e) :: s.em else s.em })
     (by
@@ -361,7 +364,7 @@ theorem defLoopB_run (owner : Var Val) (lst : String) (σ : Sig) :
     ∃ σ', Hand.defLoop V.biophys V.ext_biophys owner lst σ = .normal σ' ∧
       coreOf σ' = ⟨σ.heap, σ.copies, σ.docCopy, σ.loc.newdoc, σ.loc.referenced_ids, σ.loc.ext_morphs,
         addDefs σ.heap σ.loc.referenced_ids σ.loc.ext_biophys (listItems σ.heap (getattrV σ.heap (owner.get σ.loc) lst)),
-        σ.loc.incdoc⟩ := by
+        σ.loc.incdoc, σ.loc.all_cells⟩ := by
   have h := forItems_sim_fold (fun σ s => coreOf σ = s) V.biophys (Hand.defBody V.biophys V.ext_biophys)
     (fun s e => { s with eb := if getattrV s.heap e "id" ∈ s.refs then (getattrV s.heap e "id", e) :: s.eb else s.eb })
     (by
@@ -382,17 +385,17 @@ theorem defLoopB_run (owner : Var Val) (lst : String) (σ : Sig) :
 
 /-! ### the loop over the includes -/
 
-theorem includeBody_step (files : Files) (cp : List CopyEv) (dc : Nat) (nd : Val) (refs : List Val)
-    (v : Val) (σ : Sig) (t : Tables) (hR : ∃ i, coreOf σ = ⟨t.heap, cp, dc, nd, refs, t.em, t.eb, i⟩) :
+theorem includeBody_step (files : Files) (cp : List CopyEv) (dc : Nat) (nd : Val) (refs : List Val) (ac : List Val)
+    (v : Val) (σ : Sig) (t : Tables) (hR : ∃ i, coreOf σ = ⟨t.heap, cp, dc, nd, refs, t.em, t.eb, i, ac⟩) :
     (∀ t', includeStep files refs v t = (t', none) →
       ∃ σ', Hand.includeBody files { σ with loc := V.inc.set v σ.loc } = .normal σ' ∧
-        ∃ i, coreOf σ' = ⟨t'.heap, cp, dc, nd, refs, t'.em, t'.eb, i⟩) ∧
+        ∃ i, coreOf σ' = ⟨t'.heap, cp, dc, nd, refs, t'.em, t'.eb, i, ac⟩) ∧
     (∀ t' e, includeStep files refs v t = (t', some e) →
       ∃ σ', Hand.includeBody files { σ with loc := V.inc.set v σ.loc } = .raise e σ' ∧
-        ∃ i, coreOf σ' = ⟨t'.heap, cp, dc, nd, refs, t'.em, t'.eb, i⟩) := by
+        ∃ i, coreOf σ' = ⟨t'.heap, cp, dc, nd, refs, t'.em, t'.eb, i, ac⟩) := by
   obtain ⟨i0, hR⟩ := hR
   simp only [coreOf, Core.mk.injEq] at hR
-  obtain ⟨h1, h2, h3, h4, h5, h6, h7, _⟩ := hR
+  obtain ⟨h1, h2, h3, h4, h5, h6, h7, _, h9⟩ := hR
   unfold includeStep
   simp only [Hand.includeBody, S.block, S.seq, S.assignE, E.readFile, P.attr, P.var, V.inc, S.skip]
   rw [h1]
@@ -407,15 +410,15 @@ theorem includeBody_step (files : Files) (cp : List CopyEv) (dc : Nat) (nd : Val
       · intro t' e h
         simp only [Prod.mk.injEq, Option.some.injEq] at h
         obtain ⟨rfl, rfl⟩ := h
-        exact ⟨_, rfl, σ.loc.incdoc, by simp [coreOf, h1, h2, h3, h4, h5, h6, h7]⟩
+        exact ⟨_, rfl, σ.loc.incdoc, by simp [coreOf, h1, h2, h3, h4, h5, h6, h7, h9]⟩
     | some tmpl =>
       simp only
       obtain ⟨σ4, e4, c4⟩ := defLoopM_run V.incdoc "morphology"
         { σ with heap := (loadTemplate t.heap tmpl).1, loc := V.incdoc.set (loadTemplate t.heap tmpl).2 (V.inc.set v σ.loc) }
       obtain ⟨σ5, e5, c5⟩ := defLoopB_run V.incdoc "biophysical_properties" σ4
       simp only [coreOf, Core.mk.injEq] at c4
-      obtain ⟨a1, a2, a3, a4, a5, a6, a7, a8⟩ := c4
-      simp only [V.incdoc, V.inc] at a1 a2 a3 a4 a5 a6 a7 a8 e4 e5 c5 ⊢
+      obtain ⟨a1, a2, a3, a4, a5, a6, a7, a8, a9⟩ := c4
+      simp only [V.incdoc, V.inc] at a1 a2 a3 a4 a5 a6 a7 a8 a9 e4 e5 c5 ⊢
       constructor
       · intro t' h
         simp only [Prod.mk.injEq, and_true] at h
@@ -424,8 +427,8 @@ theorem includeBody_step (files : Files) (cp : List CopyEv) (dc : Nat) (nd : Val
         · simp only [e4, e5]
         · rw [c5]
           simp only [Core.mk.injEq]
-          rw [a1, a2, a3, a4, a5, a6, a7, a8]
-          simp [h2, h3, h4, h5, h6, h7]
+          rw [a1, a2, a3, a4, a5, a6, a7, a8, a9]
+          simp [h2, h3, h4, h5, h6, h7, h9]
       · intro t' e h; simp at h
   | none =>
     simp only
@@ -434,7 +437,7 @@ theorem includeBody_step (files : Files) (cp : List CopyEv) (dc : Nat) (nd : Val
     · intro t' e h
       simp only [Prod.mk.injEq, Option.some.injEq] at h
       obtain ⟨rfl, rfl⟩ := h
-      exact ⟨_, rfl, σ.loc.incdoc, by simp [coreOf, h1, h2, h3, h4, h5, h6, h7]⟩
+      exact ⟨_, rfl, σ.loc.incdoc, by simp [coreOf, h1, h2, h3, h4, h5, h6, h7, h9]⟩
   | ref r =>
     simp only
     constructor
@@ -442,37 +445,37 @@ theorem includeBody_step (files : Files) (cp : List CopyEv) (dc : Nat) (nd : Val
     · intro t' e h
       simp only [Prod.mk.injEq, Option.some.injEq] at h
       obtain ⟨rfl, rfl⟩ := h
-      exact ⟨_, rfl, σ.loc.incdoc, by simp [coreOf, h1, h2, h3, h4, h5, h6, h7]⟩
+      exact ⟨_, rfl, σ.loc.incdoc, by simp [coreOf, h1, h2, h3, h4, h5, h6, h7, h9]⟩
 
 theorem includeLoop_run (files : Files) (σ : Sig) :
     (∀ t, forEachE (includeStep files σ.loc.referenced_ids)
         (listItems σ.heap (getattrV σ.heap σ.loc.newdoc "includes")) ⟨σ.loc.ext_morphs, σ.loc.ext_biophys, σ.heap⟩ = (t, none) →
       ∃ σ', Hand.includeLoop files σ = .normal σ' ∧
-        ∃ i, coreOf σ' = ⟨t.heap, σ.copies, σ.docCopy, σ.loc.newdoc, σ.loc.referenced_ids, t.em, t.eb, i⟩) ∧
+        ∃ i, coreOf σ' = ⟨t.heap, σ.copies, σ.docCopy, σ.loc.newdoc, σ.loc.referenced_ids, t.em, t.eb, i, σ.loc.all_cells⟩) ∧
     (∀ t e, forEachE (includeStep files σ.loc.referenced_ids)
         (listItems σ.heap (getattrV σ.heap σ.loc.newdoc "includes")) ⟨σ.loc.ext_morphs, σ.loc.ext_biophys, σ.heap⟩ = (t, some e) →
       ∃ σ', Hand.includeLoop files σ = .raise e σ' ∧
-        ∃ i, coreOf σ' = ⟨t.heap, σ.copies, σ.docCopy, σ.loc.newdoc, σ.loc.referenced_ids, t.em, t.eb, i⟩) :=
+        ∃ i, coreOf σ' = ⟨t.heap, σ.copies, σ.docCopy, σ.loc.newdoc, σ.loc.referenced_ids, t.em, t.eb, i, σ.loc.all_cells⟩) :=
   forItems_sim
-    (fun (σ' : Sig) (t : Tables) => ∃ i, coreOf σ' = ⟨t.heap, σ.copies, σ.docCopy, σ.loc.newdoc, σ.loc.referenced_ids, t.em, t.eb, i⟩)
+    (fun (σ' : Sig) (t : Tables) => ∃ i, coreOf σ' = ⟨t.heap, σ.copies, σ.docCopy, σ.loc.newdoc, σ.loc.referenced_ids, t.em, t.eb, i, σ.loc.all_cells⟩)
     V.inc (Hand.includeBody files) (includeStep files σ.loc.referenced_ids)
-    (fun v σ' t hR => includeBody_step files σ.copies σ.docCopy σ.loc.newdoc σ.loc.referenced_ids v σ' t hR)
+    (fun v σ' t hR => includeBody_step files σ.copies σ.docCopy σ.loc.newdoc σ.loc.referenced_ids σ.loc.all_cells v σ' t hR)
     (listItems σ.heap (getattrV σ.heap σ.loc.newdoc "includes")) σ ⟨σ.loc.ext_morphs, σ.loc.ext_biophys, σ.heap⟩
     ⟨σ.loc.incdoc, rfl⟩
 
 /-! ### the substitution loop -/
 
-theorem fixBody_step (em eb : Dict) (dc : Nat) (nd : Val) (refs : List Val) (v : Val) (σ : Sig) (st : St)
-    (hR : ∃ i, coreOf σ = ⟨st.heap, st.copies, dc, nd, refs, em, eb, i⟩) :
+theorem fixBody_step (em eb : Dict) (dc : Nat) (nd : Val) (refs : List Val) (ac : List Val) (v : Val) (σ : Sig) (st : St)
+    (hR : ∃ i, coreOf σ = ⟨st.heap, st.copies, dc, nd, refs, em, eb, i, ac⟩) :
     (∀ st', fixCell em eb v st = (st', none) →
       ∃ σ', Hand.fixBody { σ with loc := V.cell.set v σ.loc } = .normal σ' ∧
-        ∃ i, coreOf σ' = ⟨st'.heap, st'.copies, dc, nd, refs, em, eb, i⟩) ∧
+        ∃ i, coreOf σ' = ⟨st'.heap, st'.copies, dc, nd, refs, em, eb, i, ac⟩) ∧
     (∀ st' e, fixCell em eb v st = (st', some e) →
       ∃ σ', Hand.fixBody { σ with loc := V.cell.set v σ.loc } = .raise e σ' ∧
-        ∃ i, coreOf σ' = ⟨st'.heap, st'.copies, dc, nd, refs, em, eb, i⟩) := by
+        ∃ i, coreOf σ' = ⟨st'.heap, st'.copies, dc, nd, refs, em, eb, i, ac⟩) := by
   obtain ⟨i0, hR⟩ := hR
   simp only [coreOf, Core.mk.injEq] at hR
-  obtain ⟨h1, h2, h3, h4, h5, h6, h7, h8⟩ := hR
+  obtain ⟨h1, h2, h3, h4, h5, h6, h7, h8, h9⟩ := hR
   have hst : (⟨σ.heap, σ.copies⟩ : St) = st := by cases st; simp_all
   unfold fixCell
   simp only [Hand.fixBody, S.block, S.seq, S.skip]
@@ -489,9 +492,9 @@ theorem fixBody_step (em eb : Dict) (dc : Nat) (nd : Val) (refs : List Val) (v :
         simp only [Prod.mk.injEq, Option.some.injEq] at h
         obtain ⟨rfl, rfl⟩ := h
         cases er with
-        | keyError k => exact ⟨_, rfl, σ.loc.incdoc, by simp [coreOf, V.e, h3, h4, h5, h6, h7]⟩
-        | includeUnreadable u => exact ⟨_, rfl, σ.loc.incdoc, by simp [coreOf, h3, h4, h5, h6, h7]⟩
-        | stuck => exact ⟨_, rfl, σ.loc.incdoc, by simp [coreOf, h3, h4, h5, h6, h7]⟩
+        | keyError k => exact ⟨_, rfl, σ.loc.incdoc, by simp [coreOf, V.e, h3, h4, h5, h6, h7, h9]⟩
+        | includeUnreadable u => exact ⟨_, rfl, σ.loc.incdoc, by simp [coreOf, h3, h4, h5, h6, h7, h9]⟩
+        | stuck => exact ⟨_, rfl, σ.loc.incdoc, by simp [coreOf, h3, h4, h5, h6, h7, h9]⟩
     | none =>
       simp only
       rw [fixSlot_run]
@@ -507,7 +510,7 @@ theorem fixBody_step (em eb : Dict) (dc : Nat) (nd : Val) (refs : List Val) (v :
           · intro st' h
             simp only [Prod.mk.injEq, and_true] at h
             subst h
-            exact ⟨_, rfl, σ.loc.incdoc, by simp [coreOf, h3, h4, h5, h6, h7]⟩
+            exact ⟨_, rfl, σ.loc.incdoc, by simp [coreOf, h3, h4, h5, h6, h7, h9]⟩
           · intro st' e h; simp at h
         | some er =>
           constructor
@@ -516,25 +519,25 @@ theorem fixBody_step (em eb : Dict) (dc : Nat) (nd : Val) (refs : List Val) (v :
             simp only [Prod.mk.injEq, Option.some.injEq] at h
             obtain ⟨rfl, rfl⟩ := h
             cases er with
-            | keyError k => exact ⟨_, rfl, σ.loc.incdoc, by simp [coreOf, V.e, h3, h4, h5, h6, h7]⟩
-            | includeUnreadable u => exact ⟨_, rfl, σ.loc.incdoc, by simp [coreOf, h3, h4, h5, h6, h7]⟩
-            | stuck => exact ⟨_, rfl, σ.loc.incdoc, by simp [coreOf, h3, h4, h5, h6, h7]⟩
+            | keyError k => exact ⟨_, rfl, σ.loc.incdoc, by simp [coreOf, V.e, h3, h4, h5, h6, h7, h9]⟩
+            | includeUnreadable u => exact ⟨_, rfl, σ.loc.incdoc, by simp [coreOf, h3, h4, h5, h6, h7, h9]⟩
+            | stuck => exact ⟨_, rfl, σ.loc.incdoc, by simp [coreOf, h3, h4, h5, h6, h7, h9]⟩
 
 theorem fixLoop_run (σ : Sig) :
     (∀ st, forEachE (fixCell σ.loc.ext_morphs σ.loc.ext_biophys)
-        (listItems σ.heap (getattrV σ.heap σ.loc.newdoc "cells")) ⟨σ.heap, σ.copies⟩ = (st, none) →
+        σ.loc.all_cells ⟨σ.heap, σ.copies⟩ = (st, none) →
       ∃ σ', Hand.fixLoop σ = .normal σ' ∧
-        ∃ i, coreOf σ' = ⟨st.heap, st.copies, σ.docCopy, σ.loc.newdoc, σ.loc.referenced_ids, σ.loc.ext_morphs, σ.loc.ext_biophys, i⟩) ∧
+        ∃ i, coreOf σ' = ⟨st.heap, st.copies, σ.docCopy, σ.loc.newdoc, σ.loc.referenced_ids, σ.loc.ext_morphs, σ.loc.ext_biophys, i, σ.loc.all_cells⟩) ∧
     (∀ st e, forEachE (fixCell σ.loc.ext_morphs σ.loc.ext_biophys)
-        (listItems σ.heap (getattrV σ.heap σ.loc.newdoc "cells")) ⟨σ.heap, σ.copies⟩ = (st, some e) →
+        σ.loc.all_cells ⟨σ.heap, σ.copies⟩ = (st, some e) →
       ∃ σ', Hand.fixLoop σ = .raise e σ' ∧
-        ∃ i, coreOf σ' = ⟨st.heap, st.copies, σ.docCopy, σ.loc.newdoc, σ.loc.referenced_ids, σ.loc.ext_morphs, σ.loc.ext_biophys, i⟩) :=
+        ∃ i, coreOf σ' = ⟨st.heap, st.copies, σ.docCopy, σ.loc.newdoc, σ.loc.referenced_ids, σ.loc.ext_morphs, σ.loc.ext_biophys, i, σ.loc.all_cells⟩) :=
   forItems_sim
     (fun (σ' : Sig) (st : St) => ∃ i, coreOf σ' =
-      ⟨st.heap, st.copies, σ.docCopy, σ.loc.newdoc, σ.loc.referenced_ids, σ.loc.ext_morphs, σ.loc.ext_biophys, i⟩)
+      ⟨st.heap, st.copies, σ.docCopy, σ.loc.newdoc, σ.loc.referenced_ids, σ.loc.ext_morphs, σ.loc.ext_biophys, i, σ.loc.all_cells⟩)
     V.cell Hand.fixBody (fixCell σ.loc.ext_morphs σ.loc.ext_biophys)
-    (fun v σ' st hR => fixBody_step σ.loc.ext_morphs σ.loc.ext_biophys σ.docCopy σ.loc.newdoc σ.loc.referenced_ids v σ' st hR)
-    (listItems σ.heap (getattrV σ.heap σ.loc.newdoc "cells")) σ ⟨σ.heap, σ.copies⟩ ⟨σ.loc.incdoc, rfl⟩
+    (fun v σ' st hR => fixBody_step σ.loc.ext_morphs σ.loc.ext_biophys σ.docCopy σ.loc.newdoc σ.loc.referenced_ids σ.loc.all_cells v σ' st hR)
+    σ.loc.all_cells σ ⟨σ.heap, σ.copies⟩ ⟨σ.loc.incdoc, rfl⟩
 
 /-! ### the whole function -/
 
@@ -553,6 +556,7 @@ def resOf : SOut → Result
 /-- everything after `newdoc` has been chosen -/
 def Hand.rest (files : Files) : Stmt :=
   S.block [
+    S.assign V.all_cells (P.concatItems (P.attr (P.var V.newdoc) "cells") (P.attr (P.var V.newdoc) "cell2_ca_poolses")),
     S.assign V.referenced_ids P.emptyList,
     Hand.collectLoop,
     S.assign V.ext_morphs P.emptyDict,
@@ -568,18 +572,25 @@ theorem rest_run (files : Files) (σ : Sig) (hcp : σ.copies = []) :
     resOf (Hand.rest files σ) = { fixInPlace files σ.heap σ.loc.newdoc with docCopy := σ.docCopy } := by
   unfold Hand.rest fixInPlace
   simp only [S.block]
-  rw [S.seq_normal (show S.assign V.referenced_ids P.emptyList σ = .normal _ from rfl)]
-  obtain ⟨σ2, e2, c2⟩ := collectLoop_run { σ with loc := V.referenced_ids.set (P.emptyList σ) σ.loc }
+  rw [S.seq_normal (show S.assign V.all_cells (P.concatItems (P.attr (P.var V.newdoc) "cells")
+      (P.attr (P.var V.newdoc) "cell2_ca_poolses")) σ =
+    .normal ⟨σ.heap, σ.copies, σ.docCopy, { σ.loc with all_cells := allCells σ.heap σ.loc.newdoc }⟩ from rfl)]
+  rw [S.seq_normal (show S.assign V.referenced_ids P.emptyList
+      ⟨σ.heap, σ.copies, σ.docCopy, { σ.loc with all_cells := allCells σ.heap σ.loc.newdoc }⟩ =
+    .normal ⟨σ.heap, σ.copies, σ.docCopy,
+      { σ.loc with all_cells := allCells σ.heap σ.loc.newdoc, referenced_ids := [] }⟩ from rfl)]
+  obtain ⟨σ2, e2, c2⟩ := collectLoop_run ⟨σ.heap, σ.copies, σ.docCopy,
+      { σ.loc with all_cells := allCells σ.heap σ.loc.newdoc, referenced_ids := [] }⟩
   rw [S.seq_normal e2]
   rw [S.seq_normal (show S.assign V.ext_morphs P.emptyDict σ2 =
     .normal ⟨σ2.heap, σ2.copies, σ2.docCopy, { σ2.loc with ext_morphs := [] }⟩ from rfl)]
   rw [S.seq_normal (show S.assign V.ext_biophys P.emptyDict ⟨σ2.heap, σ2.copies, σ2.docCopy, { σ2.loc with ext_morphs := [] }⟩ =
     .normal ⟨σ2.heap, σ2.copies, σ2.docCopy, { σ2.loc with ext_morphs := [], ext_biophys := [] }⟩ from rfl)]
-  simp only [coreOf, Core.mk.injEq, V.referenced_ids, P.emptyList, List.nil_append] at c2
-  obtain ⟨a1, a2, a3, a4, a5, _, _, _⟩ := c2
+  simp only [coreOf, Core.mk.injEq, List.nil_append] at c2
+  obtain ⟨a1, a2, a3, a4, a5, _, _, _, a9⟩ := c2
   have hinc := includeLoop_run files ⟨σ2.heap, σ2.copies, σ2.docCopy, { σ2.loc with ext_morphs := [], ext_biophys := [] }⟩
-  simp only [a1, a2, a3, a4, a5, hcp] at hinc ⊢
-  cases hf : forEachE (includeStep files (referencedIds σ.heap (listItems σ.heap (getattrV σ.heap σ.loc.newdoc "cells"))))
+  simp only [a1, a2, a3, a4, a5, a9, hcp] at hinc ⊢
+  cases hf : forEachE (includeStep files (referencedIds σ.heap (allCells σ.heap σ.loc.newdoc)))
       (listItems σ.heap (getattrV σ.heap σ.loc.newdoc "includes")) ⟨[], [], σ.heap⟩ with
   | mk t o =>
     cases o with
@@ -592,25 +603,25 @@ theorem rest_run (files : Files) (σ : Sig) (hcp : σ.copies = []) :
       obtain ⟨σ5, e5, i5, c5⟩ := hinc.1 t hf
       rw [S.seq_normal e5]
       simp only [coreOf, Core.mk.injEq] at c5
-      obtain ⟨b1, b2, b3, b4, b5, b6, b7, _⟩ := c5
+      obtain ⟨b1, b2, b3, b4, b5, b6, b7, _, b9⟩ := c5
       obtain ⟨σ6, e6, c6⟩ := defLoopM_run V.newdoc "morphology" σ5
       rw [S.seq_normal e6]
       simp only [coreOf, Core.mk.injEq, V.newdoc] at c6
-      obtain ⟨d1, d2, d3, d4, d5, d6, d7, _⟩ := c6
+      obtain ⟨d1, d2, d3, d4, d5, d6, d7, _, d9⟩ := c6
       obtain ⟨σ7, e7, c7⟩ := defLoopB_run V.newdoc "biophysical_properties" σ6
       rw [S.seq_normal e7]
       simp only [coreOf, Core.mk.injEq, V.newdoc] at c7
-      obtain ⟨g1, g2, g3, g4, g5, g6, g7, _⟩ := c7
+      obtain ⟨g1, g2, g3, g4, g5, g6, g7, _, g9⟩ := c7
       have hfix := fixLoop_run σ7
-      simp only [g1, g2, g3, g4, g5, g6, g7, d1, d2, d3, d4, d5, d6, d7, b1, b2, b3, b4, b5, b6, b7] at hfix
+      simp only [g1, g2, g3, g4, g5, g6, g7, g9, d1, d2, d3, d4, d5, d6, d7, d9, b1, b2, b3, b4, b5, b6, b7, b9] at hfix
       simp only
       cases hc : forEachE
           (fixCell
-            (addDefs t.heap (referencedIds σ.heap (listItems σ.heap (getattrV σ.heap σ.loc.newdoc "cells"))) t.em
+            (addDefs t.heap (referencedIds σ.heap (allCells σ.heap σ.loc.newdoc)) t.em
               (listItems t.heap (getattrV t.heap σ.loc.newdoc "morphology")))
-            (addDefs t.heap (referencedIds σ.heap (listItems σ.heap (getattrV σ.heap σ.loc.newdoc "cells"))) t.eb
+            (addDefs t.heap (referencedIds σ.heap (allCells σ.heap σ.loc.newdoc)) t.eb
               (listItems t.heap (getattrV t.heap σ.loc.newdoc "biophysical_properties"))))
-          (listItems t.heap (getattrV t.heap σ.loc.newdoc "cells")) ⟨t.heap, []⟩ with
+          (allCells σ.heap σ.loc.newdoc) ⟨t.heap, []⟩ with
       | mk st o2 =>
         cases o2 with
         | none =>
